@@ -443,6 +443,8 @@ class SGen:
         for i in range(n):
             dt = self.pick(["FLOAT", "FLOAT", "FLOAT", "DOUBLE", "INT64", "INT64", "INT32", "BOOL"]) if i else self.pick(["FLOAT", "FLOAT", "INT64", "DOUBLE"])
             rank = self.pick([0, 1, 1, 2, 2, 3])
+            if i == 0 and getattr(self, "force_first", None):
+                dt, rank = self.force_first
             shape = tuple(self.pick([1, 2, 3, 2, 0 if self.chance(1, 12) else 3]) for _ in range(rank))
             if i and self.chance(4) and self.params:
                 # same shape as first param so that binary ops line up
@@ -1024,12 +1026,12 @@ def _assigned(stmts):
     return out
 
 
-def gen_helper(draw, idx, opset):
+def gen_helper(draw, idx, opset, dt=None, rank=None):
     """Straight-line, shape-preserving helper script function of one tensor parameter (+ optional attribute)."""
     g = SGen(draw, name=f"helper{idx}", allow_helpers=False, allow_attrs=False, max_params=1)
     g.opset = opset
-    dt = g.pick(["FLOAT", "FLOAT", "INT64", "DOUBLE"])
-    rank = g.pick([0, 1, 2])
+    dt = dt or g.pick(["FLOAT", "FLOAT", "INT64", "DOUBLE"])
+    rank = g.pick([0, 1, 2]) if rank is None else rank
     shape = tuple(g.pick([1, 2, 3]) for _ in range(rank))
     g.params = [("h", dt, rank)]
     g.env = {"h": modelgen.make_array(g.seed(), DT[dt], shape, "smallint")}
@@ -1081,12 +1083,33 @@ class GenProgram:
 @st.composite
 def programs(draw, max_stmts=7):
     g = SGen(draw)
-    nh = draw(st.integers(0, 2))
-    for i in range(nh):
-        g.helpers.append(gen_helper(draw, i, g.opset))
+    multicall = draw(st.integers(0, 5)) == 0
+    if multicall:
+        # one script calling SEVERAL different script functions directly (order of functions / opset imports in to_model_proto)
+        dt, rank = g.pick(["FLOAT", "FLOAT", "INT64", "DOUBLE"]), g.pick([0, 1, 2])
+        for i in range(draw(st.integers(2, 4))):
+            g.helpers.append(gen_helper(draw, i, g.opset, dt, rank))
+        g.force_first = (dt, rank)
+    else:
+        for i in range(draw(st.integers(0, 2))):
+            g.helpers.append(gen_helper(draw, i, g.opset))
     g.make_params()
     sample = [g.env[p[0]].copy() for p in g.params]
-    body = g.gen_body(draw(st.integers(1, max_stmts)))
+    body = g.gen_body(draw(st.integers(1, max_stmts if not multicall else 3)))
+    if multicall:
+        x = g.params[0][0]
+        arg = x
+        for i, h in enumerate(draw(st.permutations(g.helpers))):
+            attrs = {n: {"float": 0.5, "int": 2, "bool": True}[k] for n, k, d in h.attrs if d is None or g.chance(3)}
+            e = SubCall(h.name, [Var(arg)], attrs)
+            v = g.try_eval(e)
+            if v is None:
+                continue
+            g.env[f"mc{i}"] = v
+            body.append(Assign([f"mc{i}"], e))
+            g.feats.add("subcall")
+            arg = f"mc{i}" if g.chance(4) else x
+        g.feats.add("multicall")
     if not body:
         s = g.gen_assign(g.env)
         if s is None:
